@@ -84,8 +84,18 @@ Theorem C02_function_text_parse_canonical : forall (ta : bool) (k : nat) (doc : 
 Proof. exact FuncFmtProofs.function_parse_canonical. Qed.
 Print Assumptions C02_function_text_parse_canonical.
 
-(* the emitter's side of it is a transcription (Model/RestDoc.v:emit_rest_indented_nt) compared with the code each run; that it
-   writes the canonical text is checked on every generated case, and here on one concrete function (partial: not proved for all) *)
+(* and the emitter (Model/RestDoc.v:emit_rest_indented_nt, a transcription of the tail of cdd/docstring/emit.py:docstring with
+   emit_separating_tab off, compared with the code each run) writes exactly that canonical text, so for EVERY one-line clean
+   description and EVERY non-empty list of distinctly named parameters with one-line descriptions and types:
+   parse(emit(x)) = x up to the documented normalisation (an absent default reads back as None) *)
+From CDD Require FuncEmitProofs.
+Theorem C02_function_text_roundtrip : forall (ta : bool) (doc : str) (ps : list (str * FuncFmt.fparam)),
+  RestDocProofs.clean doc = true -> RestDocIndentProofs.one_line doc = true ->
+  forallb FuncFmtProofs.fparam_ok ps = true -> forallb FuncEmitProofs.fparam_1l ps = true -> NoDup (map fst ps) -> ps <> [] ->
+  FuncFmt.parse_function (FuncFmt.emit_function ta doc ps) = (doc, FuncFmtProofs.expected ps).
+Proof. exact FuncEmitProofs.function_roundtrip. Qed.
+Print Assumptions C02_function_text_roundtrip.
+
 Example C02_function_text_example :
   let doc := s2l "Acquire from the zoo" in
   let ps := [(s2l "dataset_name", {| FuncFmt.fp_typ := Some (s2l "str"); FuncFmt.fp_doc := Some (s2l "name of dataset"); FuncFmt.fp_default := Some (s2l "'mnist'") |});
